@@ -264,6 +264,7 @@ def run(p, rep, tier):
     r7(p, rep)
     from . import c06 as _c06
 
+    _c06.r8(p, rep)  # memoised parsing makes equal constraint texts share one node: the scalar-for-ellipsis form then fails
     _c06.r7(p, rep)  # the set of candidate output expressions relies on hash/eq consistency of the expression classes
     from . import c11 as _c11
 
